@@ -313,10 +313,14 @@ func TestC05(t *testing.T) {
 
 	// 2b. one body above the 64 KiB growth step of the body reader, placed
 	//     first, in the middle or last among small messages
-	bigs := []int{65532, 65536, 65540, 66000, 70000, 100000, 131072, 131076, 200000}
+	//     (up to the largest message the 24-bit length field allows: 0xFFFFFC bytes)
+	bigs := []int{65532, 65536, 65540, 66000, 70000, 100000, 131072, 131076, 200000, 1 << 20, 1<<20 + 4, 4 << 20, 0xFFFFFC - 20}
 	rec.Suite("big-bodies", len(bigs)*3*rec.N(4, 80), func(c *ev.Case) {
 		big := bigs[c.I%len(bigs)]
 		pos := (c.I / len(bigs)) % 3
+		if big >= 4<<20 && (c.I/(len(bigs)*3))%4 != 0 {
+			return // the largest sizes: a quarter of the repetitions
+		}
 		var msgs [][]byte
 		n := 6 + c.R.IntN(20)
 		at := []int{0, n / 2, n - 1}[pos]
